@@ -9,7 +9,7 @@ try:
 except Exception as e:
     ok = False; print("MANIFEST INVALID:", e)
 es = json.load(open('/root/.vp/EVIDENCE.schema.json'))
-for f in sorted(glob.glob('/verif/evidence/*.json')):
+for f in sorted(glob.glob("/verif/evidence/*.json")):
     try:
         jsonschema.validate(json.load(open(f)), es); print("evidence ok:", f)
     except Exception as e:
